@@ -28,7 +28,7 @@ Print Assumptions C01_sequence.
 Theorem C01_pairings : forall t v,
   wf t = true -> has_type t v = true ->
   forall W (ow : wops W) view can, appender ow view can ->
-  forall R (rho : R -> LR -> Prop) (orr : rops R), rops_rel rho orr lr_ops ->
+  forall R (rho : R -> LR -> Prop) (orr : rops R), rops_rel true rho orr lr_ops ->
   forall w k, can w (nlen (spec_enc t v) + k) ->
   exists w', enc t v ow w = Ok tt w' /\ view w' = view w ++ spec_enc t v /\
   forall r rest, rho r (spec_enc t v ++ rest) ->
@@ -43,16 +43,16 @@ Print Assumptions C01_pairings.
 
 (* instances of the source contract: the buffer reader model, and a
    BoundedReader around any source *)
-Theorem C01_buffer_reader_is_source : rops_rel bufr_rel bufr_ops lr_ops.
+Theorem C01_buffer_reader_is_source : rops_rel true bufr_rel bufr_ops lr_ops.
 Proof. exact bufr_refines. Qed.
 Print Assumptions C01_buffer_reader_is_source.
 
 Theorem C01_bounded_reader_is_source : forall R (rho : R -> LR -> Prop) (o : rops R) r0 sz,
-  rops_rel rho o lr_ops -> sz < two64 ->
-  rops_rel (fun b l => exists bl, brel rho b bl /\ frame_rel r0 sz bl l) (bounded_rops o) lr_ops.
+  rops_rel true rho o lr_ops -> sz < two64 ->
+  rops_rel true (fun b l => exists bl, brel rho b bl /\ frame_rel r0 sz bl l) (bounded_rops o) lr_ops.
 Proof.
   intros R rho o r0 sz Hops Hs.
-  exact (rops_rel_trans _ _ _ _ _ (bounded_rops_rel rho o lr_ops Hops) (lr_bounded_rel r0 sz Hs)).
+  exact (rops_rel_trans _ _ _ _ _ (bounded_rops_rel true rho o lr_ops Hops) (lr_bounded_rel r0 sz Hs)).
 Qed.
 Print Assumptions C01_bounded_reader_is_source.
 
